@@ -183,7 +183,7 @@ class BodyParser:
         m = re.match(r"^(?:let\s+(?:mut\s+)?)?(\w+)\s*=\s*(\w+)\s*;?$", txt)
         if m:
             return Node("assign", var=m.group(1), src=m.group(2), i0=i, text=txt)
-        if re.match(r"^(self|parser)\s*\.\s*(error_since_advance|in_ordered_choice)\s*=", txt):
+        if re.match(r"^(self|parser)\s*\.\s*(error_since_advance|in_ordered_choice)\s*[&|]?=[^=]", txt):
             return Node("fieldwrite", i0=i, text=txt)
         if re.match(r"^let\s+\w+\s*=\s*(self|parser)\s*\.\s*in_ordered_choice\s*;?$", txt):
             return Node("pure", i0=i, text=txt)
@@ -659,7 +659,7 @@ class Emitter:
                 m = re.match(r"\s*(\w+)\s*,", s.args)
                 if m and m.group(1) in opened:
                     opened.remove(m.group(1))
-            if s.kind == "fieldwrite" and re.match(r"^(self|parser)\s*\.\s*in_ordered_choice\s*=", s.text):
+            if s.kind == "fieldwrite" and re.match(r"^(self|parser)\s*\.\s*in_ordered_choice\s*[&|]?=", s.text):
                 # a direct write of the choice flag: the tree part of the state is untouched; name the
                 # states so that facts about boundary marks carry over (quantifier instantiation hint)
                 self.nassert += 1
@@ -1160,7 +1160,7 @@ def annotate(ix, ed, report, skeleton_only=False):
         start = "\n        broadcast use lemma_span_ok, lemma_mk_bound;\n"
         if f.parent is not None:
             start += "        let ghost lhs0 = lhs;\n"
-        if re.search(r"\.\s*(error_since_advance|in_ordered_choice)\s*=[^=]", txt):
+        if re.search(r"\.\s*(error_since_advance|in_ordered_choice)\s*[&|]?=[^=]", txt):
             start += "        proof { reveal(Parser::twf); reveal(Parser::ewf); reveal(Parser::mk); }\n"
         ed.insert(st[f.i_body].e, start)
         closed0 = {"lhs": 0} if f.parent is not None else {}
